@@ -374,6 +374,41 @@ def run(ctx: Ctx) -> int:
             ctx.violation("to-complex", f"to_complex({list(c)}, {p}) = {got}, exact {want}", {"op": "to_complex", "coeffs": c, "power": p, "impl": str(got), "exact": str(want)})
             break
 
+    # ------------------------------------------------------------------ the sum in context: evaluate() on static-only scalar graphs whose
+    # terms cancel almost completely ((2^24+1) - 2^24 and relatives).  The sum over the terms is an exact ring operation and only the final
+    # result is rounded, so the value is the exact one up to single-precision rounding OF THE RESULT (not of the terms).
+    try:
+        from harness.props import c10 as H10
+        import tsim.compile.compile as CC
+        BIG = 2 ** 24
+        ctx_cases = [("integers", [H10.blank(floatfactor=[0, BIG + 1, 0, 0, 0]), H10.blank(floatfactor=[0, BIG, 0, 0, 0], phase=[1, 1])]),
+                     ("powers", [H10.blank(floatfactor=[0, BIG + 1, 0, 0, 0], power2=-2), H10.blank(floatfactor=[0, 2 * BIG, 0, 0, 0], power2=-4, phase=[1, 1])]),
+                     ("omega", [H10.blank(floatfactor=[0, 3, BIG + 1, 0, -5]), H10.blank(floatfactor=[0, 0, BIG, 0, 0], phase=[1, 1]),
+                                H10.blank(floatfactor=[0, BIG + 3, 0, 0, 0], phase=[1, 4]), H10.blank(floatfactor=[0, BIG, 0, 0, 0], phase=[5, 4])])]
+        for _ in range(4 if quick else 40):
+            big = int(rng.integers(2 ** 24, 2 ** 27))
+            small = [int(v) for v in rng.integers(-3, 4, 4)]
+            k = int(rng.integers(0, 8))
+            pw = int(rng.integers(0, 3))
+            ctx_cases.append((f"random-{big}-{k}", [H10.blank(floatfactor=[0, big + small[0], small[1], small[2], small[3]], phase=[k, 4], power2=-2 * pw),
+                                                    H10.blank(floatfactor=[0, big << pw, 0, 0, 0], phase=[(k + 4) % 8, 4], power2=-4 * pw)]))
+        for nm, graphs in ctx_cases:
+            case = {"name": nm, "params": ["a"], "graphs": graphs}
+            comp = CC.compile_scalar_graphs(H10.mk_graphs(case), ["a"])
+            got = complex(np.asarray(EV.evaluate(comp, jnp.zeros((1, 1), dtype=jnp.uint8)))[0])
+            tot = H10.ZERO
+            for d in graphs:
+                tot = tot + H10.ref_value(d, {"a": 0})[0]
+            want = tot.to_complex()
+            ctx.count(("sum-in-context", nm), nontrivial=True, bucket="sum-in-evaluate")
+            if abs(got - want) > 3e-6 * max(tot.norm1(), 1e-30):
+                ctx.violation("sum-in-evaluate:" + nm.split("-")[0], f"evaluate() over {len(graphs)} nearly cancelling terms = {got}, the exact sum is {want} "
+                              f"(terms of size 2^24 and more: the sum over terms must be exact, rounding only the result)",
+                              {"op": "sum-in-evaluate", "graphs": graphs})
+                break
+    except ImportError:
+        pass
+
     # ------------------------------------------------------------------ verdict on broken ties
     if ctx.broken and not ctx.violations:
         # the searches above (impl vs exact python-int arithmetic on every case) found nothing
@@ -426,6 +461,17 @@ def replay(ctx: Ctx, obj) -> int:
             exact = mul_ref(exact, c)
         print("impl now:", got, "exact:", exact, sum(p for _, p in l))
         return 0 if _same_value(got, (exact, sum(p for _, p in l))) else 1
+    if r.get("op") == "sum-in-evaluate":
+        from harness.props import c10 as H10
+        import tsim.compile.compile as CC
+        import tsim.compile.evaluate as EV
+        case = {"name": "replay", "params": ["a"], "graphs": r["graphs"]}
+        got = complex(np.asarray(EV.evaluate(CC.compile_scalar_graphs(H10.mk_graphs(case), ["a"]), jnp.zeros((1, 1), dtype=jnp.uint8)))[0])
+        tot = H10.ZERO
+        for d in r["graphs"]:
+            tot = tot + H10.ref_value(d, {"a": 0})[0]
+        print("impl now:", got, "exact:", tot.to_complex())
+        return 0 if abs(got - tot.to_complex()) <= 3e-6 * max(tot.norm1(), 1e-30) else 1
     if r.get("op") == "sum-of-prods":
         terms = [[tuple(c) for c in fac] for fac in r["terms"]]
         tot = ExactScalarArray(jnp.array(terms, dtype=jnp.int32)).prod(axis=1).sum()
